@@ -159,13 +159,13 @@ class C09(Prop):
         "the timeslot library (third party, site-packages/timeslot/timeslot.py) is modelled from its source; its four methods are compared with the model on a grid of slot pairs incl. start > end on every run",
         "sorted()/list.sort(key=) are stable sorts using only < on the timestamps (modelled by a stable insertion sort)",
         "copy.deepcopy yields an independent equal copy (the harness checks that no mutable object of an input is reachable from an output of filter_period_intersect, and that the inputs are unchanged by identity and value)",
-        "Event.timestamp setter = floor to 1 ms (compared on a stream of events whose timestamps were set behind the setter's back)",
+        "Event.timestamp setter = floor to 1 ms is in the model of _replace_event_period; on timestamps that are multiples of 1 ms (hypothesis MsAligned, guaranteed by the Event constructor) it is the identity, which is what the theorems use",
         "Timeslot objects are always truthy (no __bool__/__len__), so `if ip` tests for None",
     ]
     ASSUMPTIONS = [
         "event durations >= 0 and timestamps multiples of 1 ms (what the Event constructor produces); negative durations and sub-ms timestamps are run for correspondence and recorded, not judged",
         "intersection: each input list is free of internal overlap (no two of its events share a positive amount of time); any input order",
-        "an event object appears at most once in the inputs",
+        "an event object appears at most once in a list (the same list passed as both arguments is run and judged too)",
     ]
     LEVEL_TEXT = (
         "Machine-checked Lean 4 theorems over a branch-for-branch model of filter_period_intersect.py and of "
@@ -185,8 +185,10 @@ class C09(Prop):
         "endpoints on a 1 ms grid 0..5 (0..6), zero-length events included, input order shuffled (both tie orders where "
         "timestamps tie), ids set on one half; union: every pair of arbitrary lists of <=2 and <=2 grid events; slot: every "
         "pair of slots on 0..4 incl. start > end; seeded random lists at microsecond durations (adjacent, touching, "
-        "zero-length, identical, nested, one spanning many); not-judged streams for correspondence only: negative "
-        "durations, internally overlapping lists, sub-ms timestamps. non-trivial = at least two input events and a "
+        "zero-length, identical, nested, one spanning many; the same list as both arguments); zero-length pieces are not "
+        "compared between model and code (set aside by the property) but each one returned by the code must be e∩f of a pair; not-judged streams (negative "
+        "durations, internally overlapping lists, sub-ms timestamps): recorded, compared only on what the hypothesis-free "
+        "theorems claim (unreachable branch not taken; union does not raise, clears data). non-trivial = at least two input events and a "
         "non-empty output"
     )
 
@@ -276,6 +278,11 @@ class C09(Prop):
             if rng.random() < 0.5:
                 out.append(("random-isect", {"k": "isect", "a": f, "f": a}))
 
+        # the same list object passed as both arguments
+        for _ in range(ctx.pick(300, 5000)):
+            a = walk(rng.randint(0, 6), "a", rng.random() < 0.5, rng.random() < 0.6)
+            out.append(("alias-isect", {"k": "isect", "a": a, "f": a, "alias": True}))
+
         def anylist(n, tag, neg):
             l = []
             for k in range(n):
@@ -289,6 +296,10 @@ class C09(Prop):
         for _ in range(ctx.pick(4000, 150000)):
             out.append(("random-union", {"k": "punion", "a": anylist(rng.randint(0, 7), "a", False),
                                          "b": anylist(rng.randint(0, 7), "f", False)}))
+
+        for _ in range(ctx.pick(300, 5000)):
+            a = anylist(rng.randint(0, 5), "a", False)
+            out.append(("alias-union", {"k": "punion", "a": a, "b": a, "alias": True}))
 
         # correspondence only (not judged): overlapping lists, negative durations, sub-ms timestamps
         for _ in range(ctx.pick(2500, 60000)):
@@ -334,7 +345,7 @@ class C09(Prop):
 
         if case["k"] == "isect":
             A = [_mk(e, case, "a") for e in case["a"]]
-            F = [_mk(e, case, "f") for e in case["f"]]
+            F = A if case.get("alias") else [_mk(e, case, "f") for e in case["f"]]
             A0, F0 = list(A), list(F)
             owned = set()
             for ev in A + F:
@@ -360,7 +371,7 @@ class C09(Prop):
             return {"out": [ev_tuple(o) for o in r], "unreach": rec.errors, "kept": kept, "fresh": fresh}
 
         A = [_mk(e, case, "a") for e in case["a"]]
-        B = [_mk(e, case, "b") for e in case["b"]]
+        B = A if case.get("alias") else [_mk(e, case, "b") for e in case["b"]]
         try:
             r = m.period_union(A, B)
         except Exception as e:
@@ -394,8 +405,27 @@ class C09(Prop):
         return {"out": t.list(t.ev)}
 
     def same(self, case, impl_out, model_out):
+        """Inside the property's quantifier the outputs are compared in full (zero-length pieces
+        aside, see below). Outside it (negative durations, internally overlapping lists, sub-ms
+        timestamps: run and recorded, not judged) only what the hypothesis-free theorems claim is
+        compared - the unreachable branch is not taken; the union does not raise and clears data -
+        so that a change of behaviour on such inputs alone, under which the property still holds,
+        does not raise an alarm."""
         if case["k"] == "punion":
-            return impl_out["out"] == model_out["out"]
+            io, mo = impl_out["out"], model_out["out"]
+            if judged_union(case):
+                return io == mo
+            if io[:1] == ["err"] or mo[:1] == ["err"]:
+                return io[:1] == mo[:1]
+            return {p[3] for p in io} == {p[3] for p in mo}
+        if case["k"] == "isect":
+            if not judged_isect(case):
+                return impl_out["unreach"] == model_out["unreach"]
+            # zero-length pieces are set aside by the property (which of them appear depends on which
+            # pointer the sweep advances on equal ends); they are not compared between model and code.
+            # The oracle still requires every zero-length piece of the real output to be e∩f of a pair.
+            pos = lambda o: [p for p in o["out"] if p[2] != 0]
+            return pos(impl_out) == pos(model_out) and all(impl_out[k] == model_out[k] for k in ("unreach", "kept", "fresh"))
         return impl_out == model_out
 
     # ---- the property, stated directly -------------------------------------------------------
@@ -541,6 +571,11 @@ class C09(Prop):
         if case["k"] == "slot":
             return
         ka, kb = ("a", "f") if case["k"] == "isect" else ("a", "b")
+        if case.get("alias"):
+            l = case[ka]
+            for i in range(len(l)):
+                yield {**case, ka: l[:i] + l[i + 1 :], kb: l[:i] + l[i + 1 :]}
+            return
         for key in (ka, kb):
             l = case[key]
             for i in range(len(l)):
